@@ -189,6 +189,9 @@ func (r *Run) Finish() {
 	knownSeen := []string{}
 	var lines []string
 	dir := filepath.Join(Root(), "findings", r.Prop)
+	if d := os.Getenv("VERIF_FINDINGS_DIR"); d != "" {
+		dir = filepath.Join(d, r.Prop)
+	}
 	for _, k := range keys {
 		v := r.viols[k]
 		if kn := matchKnown(r.known, k); kn != nil {
@@ -220,8 +223,12 @@ func (r *Run) Finish() {
 		"wall_s": time.Since(r.Start).Seconds(), "violations": nviol,
 	}
 	b, _ := json.MarshalIndent(ev, "", " ")
-	os.MkdirAll(filepath.Join(Root(), "evidence"), 0o755)
-	if err := os.WriteFile(filepath.Join(Root(), "evidence", r.Prop+".json"), append(b, '\n'), 0o644); err != nil {
+	evdir := filepath.Join(Root(), "evidence")
+	if d := os.Getenv("VERIF_EVIDENCE_DIR"); d != "" {
+		evdir = d
+	}
+	os.MkdirAll(evdir, 0o755)
+	if err := os.WriteFile(filepath.Join(evdir, r.Prop+".json"), append(b, '\n'), 0o644); err != nil {
 		fmt.Fprintln(os.Stderr, "cannot write evidence:", err)
 		os.Exit(2)
 	}
